@@ -15,6 +15,11 @@ Checked per call
 * no live object other than the `modify` arguments changed its bit image; the result pointer is not the
   pointer of a live object; constructive results carry the SRID of the first geometry argument.
 At `END`: nothing may be alive in the model, and the child must have exited cleanly (no leak report).
+
+Interruption: `GEOS_interruptRegisterCallback i:<k>` is the harness's record of arming the next call (a callback that
+requests an interruption at the k-th checkpoint poll; unregistered and cancelled when that call has returned).  It is
+part of the global, non-reentrant API, takes and creates no object, and leaves the heap of the model unchanged.  The
+armed call itself is checked like every other call: a result, or the error value together with a message.
 -/
 namespace Driver.C12
 open GeosModel.Api GeosModel.Generated
@@ -22,6 +27,10 @@ open GeosModel.Api GeosModel.Generated
 /-- pointer results that may legitimately be NULL without an error -/
 def nullOk : List String :=
   ["GEOSSTRtree_nearest_r", "GEOSSTRtree_nearest_generic_r", "GEOSGeom_getUserData_r", "GEOSGeom_releaseCollection_r"]
+
+/-- global (non-reentrant) interruption entry points: no object argument, no result, the heap is unchanged -/
+def interruptCalls : List String :=
+  ["GEOS_interruptRegisterCallback", "GEOS_interruptRequest", "GEOS_interruptCancel"]
 
 /-- `s` without its first `n` characters -/
 def after (s : String) (n : Nat) : String := String.ofList (s.toList.drop n)
@@ -101,11 +110,28 @@ def firstGeomIsSingle (e : Entry) : Bool :=
   | some p => p.cls == .obj .geom
   | none => false
 
+/-- a global interruption call: `none` = fine, `some why` = verdict -/
+def interruptCall (lhs rhs : List String) : Option String :=
+  match (lhs.drop 1).mapM parseTok, parseFacts rhs with
+  | none, _ => some "bad-token"
+  | _, none => some "bad-facts"
+  | some toks, some f =>
+    if toks.any (· != Tok.other) then some "tokens-do-not-fit-signature"
+    else match f.ret with
+      | .v => if f.msg || !f.res.isEmpty || !f.changed.isEmpty then some "bad-facts" else none
+      | .abnormal cls => some cls
+      | _ => some "bad-facts"
+
 /-- one call; `Except.error` carries the verdict that ends the replay (`ok` for a tolerated early end) -/
 def oneCall (k : Nat) (h : Heap) (ws : List String) : Except String Heap := do
   let (lhs, rhs) := splitArrow ws
   let fname := lhs.headD "?"
   let bad (why : String) : Except String Heap := .error s!"V {k} {fname} {why}"
+  if interruptCalls.contains fname then
+    match interruptCall lhs rhs with
+    | none => return h
+    | some why => bad why
+  else
   let some e := lookup apiTable fname | bad "unknown-entry-point"
   let some toks := (lhs.drop 1).mapM parseTok | bad "bad-token"
   let some c := e.toCall toks | bad "tokens-do-not-fit-signature"
